@@ -179,6 +179,11 @@ def ensure_facts(repo=None, only=None, quiet=True):
                 m.write("%.1f\n" % (time.time() - t0))
             if not quiet:
                 print("facts: built %s in %.1fs" % (ws, time.time() - t0))
+        try:
+            with open(os.path.join(fdir, "repo.txt"), "w") as m:
+                m.write(repo + "\n")
+        except OSError:
+            pass
         _gc(os.path.join(CACHE, "facts"), keep=th)
         return fdir
     finally:
@@ -187,11 +192,22 @@ def ensure_facts(repo=None, only=None, quiet=True):
 
 
 def _gc(root, keep, max_keep=4):
+    """keep the newest few fact sets per analysed repository root (scratch copies do not evict /repo's)"""
     try:
-        ds = [d for d in os.listdir(root) if d != keep]
-        ds.sort(key=lambda d: os.path.getmtime(os.path.join(root, d)))
-        while len(ds) > max_keep - 1:
-            shutil.rmtree(os.path.join(root, ds.pop(0)), ignore_errors=True)
+        groups = {}
+        for d in os.listdir(root):
+            if d == keep:
+                continue
+            try:
+                who = open(os.path.join(root, d, "repo.txt")).read().strip()
+            except OSError:
+                who = "?"
+            groups.setdefault(who, []).append(d)
+        for who, ds in groups.items():
+            ds.sort(key=lambda d: os.path.getmtime(os.path.join(root, d)))
+            limit = max_keep - 1 if who in ("/repo", "?") else 1
+            while len(ds) > limit:
+                shutil.rmtree(os.path.join(root, ds.pop(0)), ignore_errors=True)
     except OSError:
         pass
 
